@@ -256,6 +256,259 @@ Arguments PVar {P F} name value.
 Arguments File {P F V} incs opts macs stmts.
 Arguments mkOpt {V} o_name o_default.
 
+(* ------------------------------------------------------------------ the `include:` string *)
+(* parse_inclusions:  [x.strip() for x in yaml_sobj.get("include", "").split(",")], empty items
+   dropped by filter(None, ...).  ASCII white space as str.strip() knows it. *)
+Definition is_ws (c : ascii) : bool :=
+  match nat_of_ascii c with
+  | 9%nat | 10%nat | 11%nat | 12%nat | 13%nat | 28%nat | 29%nat | 30%nat | 31%nat | 32%nat => true
+  | _ => false
+  end.
+Definition is_comma (c : ascii) : bool := Ascii.eqb c ","%char.
+
+(* s.split(",") *)
+Fixpoint split_commas (s : string) : list string :=
+  match s with
+  | EmptyString => [EmptyString]
+  | String c r =>
+    if is_comma c then EmptyString :: split_commas r
+    else match split_commas r with
+         | h :: t => String c h :: t
+         | [] => [String c EmptyString]
+         end
+  end.
+
+Fixpoint lstrip (s : string) : string :=
+  match s with
+  | EmptyString => EmptyString
+  | String c r => if is_ws c then lstrip r else s
+  end.
+
+Fixpoint rstrip (s : string) : string :=
+  match s with
+  | EmptyString => EmptyString
+  | String c r =>
+    match rstrip r with
+    | EmptyString => if is_ws c then EmptyString else String c EmptyString
+    | r' => String c r'
+    end
+  end.
+
+Definition strip (s : string) : string := rstrip (lstrip s).
+
+Definition nonempty (s : string) : bool := match s with EmptyString => false | _ => true end.
+
+Definition split_includes (s : string) : list string :=
+  filter nonempty (map strip (split_commas s)).
+
+(* specification vocabulary *)
+Fixpoint all_ws (s : string) : bool :=
+  match s with EmptyString => true | String c r => is_ws c && all_ws r end.
+Fixpoint no_comma (s : string) : bool :=
+  match s with EmptyString => true | String c r => negb (is_comma c) && no_comma r end.
+(* a macro name as it can be written in an include string: not empty, no comma, no white space
+   at either end (white space inside is kept) *)
+Definition clean_name (n : string) : Prop :=
+  exists c r, n = String c r /\ is_ws c = false /\ rstrip n = n /\ no_comma n = true.
+(* the written string: items (left padding, name or nothing, right padding) separated by commas *)
+Fixpoint join_includes (items : list (string * string * string)) : string :=
+  match items with
+  | [] => EmptyString
+  | [(l, n, r)] => l ++ n ++ r
+  | (l, n, r) :: rest => l ++ n ++ r ++ String ","%char (join_includes rest)
+  end.
+
+(* ------------------------------------------------------------------ names seen by formulas *)
+(* snowfakery/data_generator_runtime.py  EvaluationNamespace.field_vars / simple_field_vars:
+     {"id", "count", "child_index", "this", "today", "now", "fake", "template",   built-in names
+      **interpreter.options,                         the result of merge_options
+      **interpreter.globals.object_names,            forward-reference slots, nicknames, table names
+      **(obj._values if obj else {}),                "id" and the fields of the current row so far
+      **interpreter.plugin_function_libraries,       declared plugins by their short name
+      **self.runtime_context.variable_definitions(), `var` statements, child_index, for_each variables
+      **self.field_funcs()}                          the standard functions (date, random_number, ...)
+   One Python dict is built from these seven dicts; an entry of a later dict replaces the entry
+   of an earlier one.  ${{name}} evaluates to what this dict holds for `name`. *)
+Section Namespace.
+  Variable V : Type.
+
+  Record scopes := mkScopes {
+    sc_builtins : list (string * V);
+    sc_options  : list (string * V);
+    sc_objects  : list (string * V);
+    sc_fields   : list (string * V);
+    sc_plugins  : list (string * V);
+    sc_vars     : list (string * V);
+    sc_funcs    : list (string * V)
+  }.
+
+  (* the dicts in the order in which they are merged *)
+  Definition layers (s : scopes) : list (list (string * V)) :=
+    [sc_builtins s; sc_options s; sc_objects s; sc_fields s; sc_plugins s; sc_vars s; sc_funcs s].
+
+  (* {**l1, **l2, ...} *)
+  Definition merge_dicts (ls : list (list (string * V))) : dict V :=
+    fold_left (@dict_update V) ls [].
+
+  Definition field_vars (s : scopes) : dict V := merge_dicts (layers s).
+
+  (* what ${{n}} evaluates to (None: jinja's Undefined) *)
+  Definition resolve (n : string) (s : scopes) : option V := lookup n (field_vars s).
+
+  (* specification vocabulary: a scope closer than the options defines the name *)
+  Definition closer_defines (n : string) (s : scopes) : Prop :=
+    last_lookup n (sc_objects s) <> None \/ last_lookup n (sc_fields s) <> None \/
+    last_lookup n (sc_plugins s) <> None \/ last_lookup n (sc_vars s) <> None \/
+    last_lookup n (sc_funcs s) <> None.
+
+  Definition with_options (s : scopes) (o : list (string * V)) : scopes :=
+    mkScopes (sc_builtins s) o (sc_objects s) (sc_fields s) (sc_plugins s) (sc_vars s) (sc_funcs s).
+End Namespace.
+
+(* ------------------------------------------------------------------ include files on disk *)
+(* snowfakery/parse_recipe_yaml.py  parse_included_file / parse_included_files / parse_file:
+     inclusion_path = parent_path.parent / relpath        relative to the INCLUDING file
+     if not inclusion_path.is_file(): DataGenError "Cannot load include file"
+     including, included = parent_path.resolve(), inclusion_path.resolve()
+     if included == including or included in context.inclusion_stack: DataGenError "includes itself"
+     context.inclusion_stack.append(including); parse_file(included); pop
+   A path is the list of its segments below the directory of the main recipe (no symbolic
+   links in the model).  An `include_file` string is given split at "/" (harness). *)
+Definition path := list string.
+Definition path_eqb (a b : path) : bool := list_eqb String.eqb a b.
+Definition mem_path (p : path) (l : list path) : bool := existsb (path_eqb p) l.
+
+(* d is a proper prefix of p *)
+Fixpoint proper_prefix (d p : path) : bool :=
+  match d, p with
+  | [], _ :: _ => true
+  | x :: d', y :: p' => String.eqb x y && proper_prefix d' p'
+  | _, _ => false
+  end.
+
+Section FsModel.
+  Variables P F V : Type.
+
+  Inductive fsfile :=
+  | FsFile (incs : list (list string)) (opts : list (optdecl V)) (macs : list (string * macro P F))
+           (stmts : list (stmt P F)).
+
+  (* the regular files below the main recipe's directory; directories exist iff a file lies below *)
+  Definition fsys := list (path * fsfile).
+
+  Fixpoint fs_lookup (p : path) (fs : fsys) : option fsfile :=
+    match fs with
+    | [] => None
+    | (q, f) :: r => if path_eqb q p then Some f else fs_lookup p r
+    end.
+
+  Definition fs_paths (fs : fsys) : list path := map fst fs.
+
+  Definition is_dir (fs : fsys) (d : path) : bool :=
+    existsb (fun e => proper_prefix d (fst e)) fs.
+
+  (* pathlib: Path("a//./b") drops empty and "." segments (".." is kept) *)
+  Definition pure_segs (segs : list string) : list string :=
+    filter (fun s => negb (String.eqb s "" || String.eqb s ".")) segs.
+
+  (* the operating system follows the segments from directory cur: every segment that is
+     followed by another one must be an existing directory; ".." leaves the directory *)
+  Inductive walked := WPath (p : path) | WMissing | WEscape.
+
+  Fixpoint walk (fs : fsys) (cur : path) (segs : list string) : walked :=
+    match segs with
+    | [] => WPath cur
+    | s :: r =>
+      if String.eqb s ".." then
+        match cur with
+        | [] => WEscape                           (* above the modelled directory *)
+        | _ :: _ => walk fs (removelast cur) r
+        end
+      else
+        match r with
+        | [] => WPath (cur ++ [s])
+        | _ :: _ => if is_dir fs (cur ++ [s]) then walk fs (cur ++ [s]) r else WMissing
+        end
+    end.
+
+  (* where `include_file: rel` written in file p points to *)
+  Definition resolve_include (fs : fsys) (p : path) (rel : list string) : walked :=
+    walk fs (removelast p) (pure_segs rel).
+
+  (* parse_included_files: for fi in file_inclusions: templates.extend(parse_included_file(...));
+     `rec` is parse_file on the included path *)
+  Fixpoint fs_incs {A} (fs : fsys) (p : path) (stack : list path) (rec : path -> result A)
+           (l : list (list string)) : result (list A) :=
+    match l with
+    | [] => Ok []
+    | rel :: r =>
+      match resolve_include fs p rel with
+      | WEscape => Err Unsupported
+      | WMissing => Err (DGE "Cannot load include file")
+      | WPath q =>
+        match fs_lookup q fs with
+        | None => Err (DGE "Cannot load include file")
+        | Some _ =>
+          if path_eqb q p || mem_path q stack then Err (DGE "Include file includes itself")
+          else do a <- rec q; do rest <- fs_incs fs p stack rec r; Ok (a :: rest)
+        end
+      end
+    end.
+
+  Fixpoint concat3 (parts : list (flat3 P F V)) : flat3 P F V :=
+    match parts with
+    | [] => ([], [], [])
+    | (s1, o1, m1) :: r => let '(s2, o2, m2) := concat3 r in (s1 ++ s2, o1 ++ o2, m1 ++ m2)
+    end.
+
+  (* parse_file(path) with context.inclusion_stack = stack: what the file contributes to
+     (statements, context.options, context.macros).  fuel bounds the nesting depth;
+     S (number of files) always suffices (MacrosP.fs_fuel_enough). *)
+  Fixpoint fs_flatten (fuel : nat) (fs : fsys) (stack : list path) (p : path)
+    : result (flat3 P F V) :=
+    match fuel with
+    | O => Err OutOfFuel
+    | S k =>
+      match fs_lookup p fs with
+      | None => Err (DGE "Cannot load include file")
+      | Some (FsFile incs opts macs stmts) =>
+        do parts <- fs_incs fs p stack (fs_flatten k fs (stack ++ [p])) incs;
+        let '(s, o, m) := concat3 parts in
+        Ok (s ++ stmts, o ++ opts, m ++ macs)
+      end
+    end.
+
+  Definition fs_fuel (fs : fsys) : nat := S (length fs).
+
+  (* parse_recipe on the file system *)
+  Definition fs_parse_recipe (fs : fsys) (main : path)
+    : result (list (pstmt P F) * list (optdecl V)) :=
+    do '(s, o, m) <- fs_flatten (fs_fuel fs) fs [] main;
+    do ps <- parse_stmts m s;
+    Ok (ps, o).
+
+  (* specification: the tree of files that following the include_file lines unfolds to
+     (the representation the theorems about `flatten` speak of) *)
+  Fixpoint fs_tree (fuel : nat) (fs : fsys) (stack : list path) (p : path)
+    : result (file P F V) :=
+    match fuel with
+    | O => Err OutOfFuel
+    | S k =>
+      match fs_lookup p fs with
+      | None => Err (DGE "Cannot load include file")
+      | Some (FsFile incs opts macs stmts) =>
+        do gs <- fs_incs fs p stack (fs_tree k fs (stack ++ [p])) incs;
+        Ok (File (map Some gs) opts macs stmts)
+      end
+    end.
+
+  (* the whole tree moved below directory `pre` *)
+  Definition relocate (pre : path) (fs : fsys) : fsys :=
+    map (fun e => (pre ++ fst e, snd e)) fs.
+End FsModel.
+
+Arguments FsFile {P F V} incs opts macs stmts.
+
 (* ------------------------------------------------------------------ correspondence cases *)
 (* Concrete instance: definitions and friends are canonical renderings (strings). *)
 Inductive oval := VNone | VBool (b : bool) | VInt (z : Z) | VStr (s : string).
@@ -297,7 +550,15 @@ Inductive case :=
          (expected : result (list (pstmt string string) * list (optdecl oval)))
 (* merge_options(decls, user, {}): expected (options items, extra option names as a set) *)
 | CMerge (decls : list (optdecl oval)) (user : list (string * oval))
-         (expected : result (list (string * oval) * list string)).
+         (expected : result (list (string * oval) * list string))
+(* ${{name}} at several places of one run: the options layer is merge_options' result, the
+   other layers are given per place; `allowed` = the values of the entries of the layers whose
+   rendering equals what the implementation showed (opaque objects: VStr "?<layer>") *)
+| CSeen (decls : list (optdecl oval)) (user : list (string * oval))
+        (probes : list (scopes oval * string * list oval))
+(* parse_recipe on file systems (several runs of one process): expected (statements, options) *)
+| CFs (runs : list (fsys string string oval * path *
+                    result (list (pstmt string string) * list (optdecl oval)))).
 
 Definition check_case (c : case) : bool :=
   match c with
@@ -306,4 +567,21 @@ Definition check_case (c : case) : bool :=
   | CMerge decls user e =>
     result_eqb (pair_eqb dict_eqb set_eqb)
                (merge_options decls user []) e
+  | CSeen decls user probes =>
+    match merge_options decls user [] with
+    | Err _ => false
+    | Ok (o, _) =>
+      forallb (fun pr : scopes oval * string * list oval =>
+                 let '(s, n, allowed) := pr in
+                 match resolve n (with_options s o) with
+                 | Some v => existsb (oval_eqb v) allowed
+                 | None => existsb (oval_eqb (VStr "?undefined")) allowed
+                 end) probes
+    end
+  | CFs runs =>
+    forallb (fun r : fsys string string oval * path *
+                     result (list (pstmt string string) * list (optdecl oval)) =>
+               let '(fs, main, e) := r in
+               result_eqb (pair_eqb (list_eqb pstmt_eqb) (list_eqb optdecl_eqb))
+                          (fs_parse_recipe fs main) e) runs
   end.
